@@ -337,8 +337,17 @@ func progDeployDep() *Program {
 	}, Outputs: []Output{{"success", O("r", E(sv("a")))}}}
 }
 
+// a loop with more items than slots next to a step whose failure ends the run
+func progLoopSibling() *Program {
+	p := progLoop(3, 1, subProg(), "loopsibling")
+	p.Steps = append(p.Steps, pstep("x", O("v", E("$.input.n"))))
+	p.Outputs = []Output{{"success", O("d", E("$.steps.loop.outputs.success.data"), "r", E(sv("x")))}}
+	return p
+}
+
 func catalogue() []*Program {
 	return []*Program{
+		progLoopSibling(),
 		progDeployDep(),
 		progSumExpr(), progSumExpr2(), progSumInts(), progStopEnable(),
 		progSingle(), progChain(2), progChain(3), progFanIn(), progDiamond(), progMultiOut(), progMultiOut2(),
@@ -526,6 +535,19 @@ func tagPrograms() []*Program {
 				{"strict", O("x", E(sv("a")), "y", E(sv("b")), "z", E(sv("c")))},
 				{"lenient", O("x", Opt{true, sv("a")}, "z", OneOf{Disc: "k", Opts: []Field{{"ok", E("$.steps.c.outputs.success")}, {"bad", E("$.steps.c.outputs.error")}}})},
 			}},
+		// the enable condition of a comes from another step; consumers wait on a's disabled output
+		{Name: "enabledep", Steps: []Step{
+			pstep("p", O("v", E("$.input.n"))),
+			{ID: "a", Input: O("v", I(1)), Enabled: E("$.steps.p.enabling.resolved.enabled")},
+			pstep("b", O("v", I(1)))},
+			Outputs: []Output{{"success", O("r", E(sv("b")), "m", Opt{true, "$.steps.a.disabled.output.message"}, "v", Opt{true, sv("a")})}}},
+		{Name: "enabledep2", Steps: []Step{
+			pstep("p", O("v", E("$.input.n"))),
+			{ID: "a", Input: O("v", I(1)), Enabled: E("$.steps.p.enabling.resolved.enabled"), StopIf: E("$.input.flag")},
+			pstep("b", O("v", I(1)))},
+			Outputs: []Output{
+				{"success", O("r", OrDisabled{"$.steps.a.outputs.success"})},
+				{"other", O("r", E(sv("b")), "m", Opt{true, "$.steps.a.disabled.output.message"})}}},
 		{Name: "optinwaitfor", Steps: []Step{
 			pstep("a", O("v", E("$.input.n"))),
 			{ID: "c", Input: O("v", I(2)), WaitFor: O("x", Opt{true, "$.steps.a.outputs.success"})}},
@@ -535,7 +557,7 @@ func tagPrograms() []*Program {
 
 func tagInputs(p *Program) []map[string]any {
 	switch p.Name {
-	case "enabled", "waitoptdisabled":
+	case "enabled", "waitoptdisabled", "enabledep2":
 		return []map[string]any{{"n": 5, "flag": true}, {"n": 5, "flag": false}}
 	}
 	return []map[string]any{{"n": 5}}
